@@ -243,6 +243,14 @@ fn check_op(sop: &SOp, proto: &[u8], obs: &mut Obs) -> Verdict {
             return Verdict::Fail(format!("{:?}.apply_to_hook on a hook without replace override: {:?}, expected {:?}", op, rec2.0.events, want2));
         }
     }
+    // a failing hook: the replay stops at the failing call (default replace = delete, then insert)
+    {
+        let mut f0 = RecorderNoReplace(Recorder::failing(0));
+        let r = op.apply_to_hook(&mut f0);
+        if r != Err(0) || f0.0.events.len() != 1 {
+            return Verdict::Fail(format!("{:?}.apply_to_hook on a hook that fails at its first call: result {:?}, the hook saw {:?}", op, r, f0.0.events));
+        }
+    }
     // a hook handed over BY VALUE to generic code is often a `&mut` to the real hook
     {
         fn replay<D: similar::algorithms::DiffHook>(op: &DiffOp, mut d: D) -> Result<(), D::Error> {
@@ -362,6 +370,26 @@ fn judge_text<'a, T: DiffableStr + ?Sized + std::fmt::Debug + 'a>(d: &'a TextDif
         }
         if got != want {
             return Err(format!("UnifiedDiffHunk::new({:?}).iter_changes() {:?} != concatenation of per-op expansions {:?}", ops, got, want));
+        }
+    }
+    // replaying the whole op list reproduces it: into a Capture, and through the Replace adapter
+    // (a list in normal form passes through it unchanged)
+    {
+        let mut cap = Capture::new();
+        for op in d.ops() {
+            op.apply_to_hook(&mut cap).unwrap();
+        }
+        if cap.ops() != d.ops() {
+            return Err(format!("replaying ops() through apply_to_hook into a Capture gives {:?}, the ops are {:?}", cap.ops(), d.ops()));
+        }
+        let mut rep = similar::algorithms::Replace::new(Capture::new());
+        for op in d.ops() {
+            op.apply_to_hook(&mut rep).unwrap();
+        }
+        similar::algorithms::DiffHook::finish(&mut rep).unwrap();
+        let got = rep.into_inner().into_ops();
+        if got != d.ops() {
+            return Err(format!("replaying ops() through apply_to_hook into Replace<Capture> gives {:?}, the ops are {:?}", got, d.ops()));
         }
     }
     obs.nontrivial = d.ops().len() >= 2;
